@@ -497,6 +497,97 @@ def r01_8b(chk, ft):
                  f"`{unparse(tests[0].test)}` decides the sign from the range of an un-normalised angle", loc(fwd, tests[0]) if tests else loc(fwd, fwd.node))
 
 
+class PolarExtract(Extract):
+    """arctan2(k·sin A, k·cos A) with a positive monomial k evaluates to A for A among the candidate angles;
+    arctan(tan[B]) evaluates to B."""
+
+    def __init__(self, candidates, **kw):
+        super().__init__(**kw)
+        self.candidates = candidates
+        self.log = []
+
+    def call(self, n):
+        fname = unparse(n.func).split(".")[-1]
+        if fname == "arctan2" and len(n.args) == 2:
+            s_, c_ = self.ev(n.args[0]), self.ev(n.args[1])
+            for A in self.candidates:
+                sa, ca = T.trig("sin", A), T.trig("cos", A)
+                if T.equal(s_ * ca, c_ * sa):
+                    k = T.normalize(s_ * sa + c_ * ca)
+                    if len(k.d) == 1 and all(v > 0 for v in k.d.values()):
+                        self.log.append((unparse(n), T.fmt(A), T.fmt(k)))
+                        return A
+            raise Unsupported(f"arctan2 arguments are not (k sin A, k cos A) of a candidate angle: {unparse(n)}")
+        if fname == "arctan" and len(n.args) == 1:
+            x = T.normalize(self.ev(n.args[0]))
+            if len(x.d) == 1:
+                (k, v), = x.d.items()
+                if v == 1 and len(k) == 1 and k[0][1] == 1:
+                    info = T.ATOMS.get(k[0][0])
+                    if info and info[0] == "func" and info[1] == "tan":
+                        return info[2]
+            raise Unsupported(f"arctan argument is not tan of an angle: {unparse(n)}")
+        return super().call(n)
+
+
+def r01_10(chk, ft):
+    """Polar pairs: the decoders of circular, mean-circular and equinoctial forms invert their encoders."""
+    a, e, i, Om, om, nu, M = (Poly.atom(nf(x)) for x in ("a", "e", "i", "Ω", "ω", "ν", "M"))
+    cases = [
+        (("keplerian", "keplerian_circular"), ("keplerian_circular", "keplerian"), [a, e, i, Om, om, nu], [om]),
+        (("keplerian_mean", "keplerian_mean_circular"), ("keplerian_mean_circular", "keplerian_mean"), [a, e, i, Om, om, M], [om]),
+        (("keplerian", "keplerian_equinoctial".replace("keplerian_", "")), ("equinoctial", "keplerian"), [a, e, i, Om, om, nu], [Om, Om + om]),
+    ]
+    for enc_key, dec_key, atoms, cands in cases:
+        enc, dec = ft.conversions[enc_key], ft.conversions[dec_key]
+        names, _ = _unpack_of_coord(enc)
+        ex = Extract(env={n: v for n, v in zip(names, atoms)})
+        ex.run([s for s in body_without_doc(enc.node) if not (isinstance(s, ast.Assign) and isinstance(s.targets[0], ast.Tuple))])
+        encoded = ret_vec(ex.env, enc)
+        dnames, _ = _unpack_of_coord(dec)
+        px = PolarExtract(cands, env={n: v for n, v in zip(dnames, encoded)})
+        try:
+            px.run([s for s in body_without_doc(dec.node) if not (isinstance(s, ast.Assign) and isinstance(s.targets[0], ast.Tuple))], stop_on_unsupported=True)
+            back = ret_vec(px.env, dec)
+        except Unsupported as err:
+            chk.obl("R01.10", f"{dec.ref}∘{enc.qualname}", False, f"decoder does not invert the encoder: {err}", loc(dec, dec.node))
+            continue
+        for k in range(6):
+            obl_eq(chk, "R01.10", f"{dec.ref}∘{enc.qualname}[{k}]", back[k], atoms[k], "element recovered", loc(dec, dec.node))
+    chk.floor("R01.10", 18)
+
+
+def r01_11(chk, ft):
+    """keplerian → cartesian: position is the perifocal→inertial rotation of r(cos u, sin u); velocity is its total
+    time-derivative with ν' = h/r² (all other elements constant); r = p/(1 + e cos ν), p = a(1 − e²), h = √(µ p)."""
+    f = ft.conversions[("keplerian", "cartesian")]
+    names, _ = _unpack_of_coord(f)
+    cn = [nf(x) for x in names]
+    ex = Extract()
+    ex.run(body_without_doc(f.node))
+    v = ret_vec(ex.env, f)
+    a, e, i, Om, om, nu = (Poly.atom(x) for x in cn)
+    mu = [x for x in (ex.env["h"].atoms() if isinstance(ex.env.get("h"), Poly) else []) if "body" in x]
+    if not mu:
+        raise AnalysisError(f"{f.ref}: h = sqrt(µ p) not found")
+    MU = Poly.atom([x for x in T.ATOMS.get(mu[0], ("", "", Poly()))[1].atoms() if "body" in x][0]) if mu[0].startswith("B") else Poly.atom(mu[0])
+    p_ = a * (1 - e * e)
+    r = p_ / (1 + e * T.trig("cos", nu))
+    h = T.power(MU * p_, F(1, 2))
+    u = om + nu
+    cu, su = T.trig("cos", u), T.trig("sin", u)
+    cO, sO, ci, si = T.trig("cos", Om), T.trig("sin", Om), T.trig("cos", i), T.trig("sin", i)
+    pos = [r * (cO * cu - sO * su * ci), r * (sO * cu + cO * su * ci), r * si * su]
+    where = loc(f, f.node)
+    for k in range(3):
+        obl_eq(chk, "R01.11", f"{f.ref}::position[{k}]", v[k], pos[k], "r · (perifocal → inertial rotation of (cos u, sin u))", where)
+    nudot = h / (r * r)
+    for k in range(3):
+        want = T.deriv(pos[k], {cn[5]: Poly.const(1)}) * nudot
+        obl_eq(chk, "R01.11", f"{f.ref}::velocity[{k}]", v[3 + k], want, "velocity = d(position)/dν · h/r²", where)
+    chk.floor("R01.11", 6)
+
+
 def r01_9(chk, ft):
     f1 = ft.conversions[("tle", "keplerian_mean")]
     f2 = ft.conversions[("keplerian_mean", "tle")]
@@ -649,6 +740,10 @@ def run(chk):
     chk.guard(r01_8, chk, ft)
     chk.guard(r01_8b, chk, ft)
     chk.guard(r01_9, chk, ft)
+    chk.rule("R01.10", "polar-pair decoders (circular, mean-circular, equinoctial) invert their encoders (term algebra)")
+    chk.guard(r01_10, chk, ft)
+    chk.rule("R01.11", "keplerian → cartesian equals the textbook position and its time-derivative (term algebra)")
+    chk.guard(r01_11, chk, ft)
     chk.guard(r01_12, chk)
     chk.assume("positive-atom assumption: sqrt(x²)=x and |x|=x for the atoms r, a, e, cos φ (elements in their documented ranges)")
     chk.assume("angles are compared modulo 2π")
